@@ -396,4 +396,12 @@ def build (m : Mode) (len : Nat) (env : Env) (ts : List Token) (lexErr : Option 
     | .document => b.finishDocument len
     | .fragment => b.finishFragment
 
+/-- `parse_bytes`: `decode(bytes, None)` is external (xhtmlchardet + encoding_rs); it
+    `unwrap`s the detected encoding, so an input for which none is found is a panic. `decoded`
+    = what the tokenizer made of the decoded text (length, tokens, tokenizer error). -/
+def parseBytes (env : Env) (decoded : Option (Nat × List Token × Option Nat)) : BuildResult :=
+  match decoded with
+  | none => .panic
+  | some (len, ts, lexErr) => build .document len env ts lexErr
+
 end XotModel
